@@ -26,6 +26,9 @@ EXPLANATION = (
     're-register the directories of every nested output. Exactness of the '
     'created-directory set after arbitrary histories is not decided.'
     ' R12.3b: files and the cache file are removed before directories. R12.4b: createdDirs is written from and read into one field and every registered operation reaches the cache file (R16.2, R16.5, R16.6). R12.7: a concurrently created directory keeps an owner (R9.6).')
+# round 3/4 additions
+EXPLANATION += (
+    ' R12.5 includes: no containment decision between paths by a plain string-prefix test. R12.8 = R2.9 (the previous cache file survives a failed write). R12.9 = R4.10-R4.12 (removed-directory knowledge: memoised, kept while reserved, vanished = removed).')
 
 
 def _clean(ctx):
